@@ -246,6 +246,10 @@ func (ex *explorer) account(m *Machine, end pathEnd) {
 		}
 		r.Samples = append(r.Samples, map[string]interface{}{"harness": ex.spec.Entry, "inputs": v.Inputs, "choices": v.Choices, "decisions": len(m.trace), "observed": m.observed})
 	}
+	if r.Ends["unsupported"]+r.Ends["engine"]+r.Ends["diverged"] >= 20 && r.Incomplete == "" {
+		atomic.StoreInt32(&ex.stop, 1)
+		r.Incomplete = "stopped after 20 unsupported/engine path ends"
+	}
 	if r.Paths >= ex.spec.MaxPaths {
 		atomic.StoreInt32(&ex.stop, 1)
 		r.Incomplete = fmt.Sprintf("path budget %d exhausted", ex.spec.MaxPaths)
@@ -375,6 +379,9 @@ func (w *World) RunAll(only string) ([]*HarnessResult, error) {
 			return nil, err
 		}
 		hs.Pkg = pkgPath
+		if err := w.setHarnessOverrides(h); err != nil {
+			return nil, err
+		}
 		fmt.Fprintf(os.Stderr, "[gosym] %s %s (%s) ...\n", w.SpecFile.Property, h.Entry, w.Tier)
 		atomic.StoreInt64(&modelCounter, 0)
 		res := w.Explore(hs, entry)
